@@ -28,6 +28,78 @@ class Ctx:
             self._cfg[fn.key] = build_cfg(fn.node, lambda raised, caught, fn=fn: self.exc_matches(fn, raised, caught))
         return self._cfg[fn.key]
 
+    # ---------------------------------------------------------- expansion
+    def xexpand(self, fn: FuncInfo, expr: ast.AST, depth: int = 3, stop: Iterable[str] = ()) -> ast.AST:
+        """
+        Inline single-definition locals, trivially inlinable helper calls
+        (functions / methods / closures of the repository whose body is a few
+        simple assignments followed by one return) and module-level tuple
+        constants.  Lets rules see through extracted helpers and named constants.
+        """
+        from .exprs import clone, is_log_call
+
+        defs = self.defs(fn)
+        out = defs.expand(expr, stop=stop)
+        if depth <= 0:
+            return out
+        ctx = self
+
+        class Inline(ast.NodeTransformer):
+            def visit_Name(self, node: ast.Name) -> ast.AST:  # noqa: N802
+                if isinstance(node.ctx, ast.Load) and node.id not in defs.params and not defs.all_values(node.id) and node.id not in defs.other_defs:
+                    got = ctx.r.resolve_name(fn.module, node.id)
+                    if got is not None and got.kind == "value" and isinstance(got.target, (ast.Tuple, ast.List)) and got.module is fn.module:
+                        return clone(got.target)
+                return node
+
+            def visit_Call(self, node: ast.Call) -> ast.AST:  # noqa: N802
+                self.generic_visit(node)
+                try:
+                    callees = [c for c in ctx.r.callees(fn, node) if isinstance(c, FuncInfo)]
+                except Exception:  # pylint: disable=broad-except
+                    return node
+                if len(callees) != 1:
+                    return node
+                callee = callees[0]
+                if callee.module.external or callee.is_async or callee is fn or any(isinstance(n, (ast.Yield, ast.YieldFrom)) for n in own_nodes(callee.node)):
+                    return node
+                body = [s for s in callee.node.body if not is_log_call(s)]
+                if not body or not isinstance(body[-1], ast.Return) or body[-1].value is None:
+                    return node
+                if not all(isinstance(s, (ast.Assign, ast.AnnAssign)) and isinstance((s.targets[0] if isinstance(s, ast.Assign) else s.target), ast.Name) for s in body[:-1]):
+                    return node
+                if any(isinstance(n, (ast.Return,)) for s in body[:-1] for n in ast.walk(s)):
+                    return node
+                cdefs = ctx.defs(callee)
+                ret = cdefs.expand(body[-1].value)
+                params = callee.params
+                bound = bind_call_args(node, params, skip_self=callee.cls is not None and bool(params) and params[0] in ("self", "cls"))
+                if callee.cls is not None and params and params[0] == "self" and isinstance(node.func, ast.Attribute):
+                    bound["self"] = node.func.value
+                # defaults
+                args = callee.node.args
+                pos = args.posonlyargs + args.args
+                for a, d in zip(pos[len(pos) - len(args.defaults):], args.defaults):
+                    bound.setdefault(a.arg, d)
+                if any(p not in bound for p in params if p not in ("cls",)):
+                    return node
+
+                class Sub(ast.NodeTransformer):
+                    def visit_Name(self, n: ast.Name) -> ast.AST:  # noqa: N802
+                        if isinstance(n.ctx, ast.Load) and n.id in bound:
+                            return clone(bound[n.id])
+                        return n
+
+                    def visit_Lambda(self, n: ast.Lambda) -> ast.AST:  # noqa: N802
+                        return n
+
+                return Sub().visit(clone(ret))
+
+        res = Inline().visit(out)
+        if depth > 1 and ast.dump(res) != ast.dump(out):
+            return self.xexpand(fn, res, depth - 1, stop)
+        return res
+
     # -------------------------------------------------------- exceptions
     def exc_class(self, fn: FuncInfo, expr: Optional[ast.expr]) -> Optional[ClassInfo]:
         if expr is None:
